@@ -12,6 +12,7 @@ Decided:
               partition count and (block size / count) strictly greater than the predictor order
   C17.wasted  both decoders apply the wasted-bits shift to every subframe type (constant, verbatim, fixed, LPC)
   C17.resid   residual folding/unfolding is the same zig-zag in the three places it is written
+  C17.prim   the integer primitives of the two decoders (from_i64, from_u32, wrapping_add for i32 / i64) are the same operations
   C17.panic   engine B over the structural writers
   C17.wide    both mid-side reconstructions (ordinary and 33-bit) take the parity from |side| % 2
   (C17.wasted also: effective depth in every arm, shift guard `wasted > 0`, fixed shift 0, LPC shift from the stream;
@@ -299,6 +300,37 @@ def run(ctx, rep):
     decoder_shift_rules(F, ok, rep, "C17")
 
     decoder_depth_rules(F, ok, rep, "C17")
+
+    # ---- C17.prim: the integer primitives of the two decoders (the SignedInteger helper traits of decode.rs and
+    # stream.rs) are the same functions: narrowing by a wrapping cast, wrapping addition
+    prim = {}
+    for b in F.bodies:
+        if b.promoted is not None:
+            continue
+        m = re.search(r"(decode|stream)::.*SignedInteger.*?(i32|i64)>?::(from_i64|from_u32|wrapping_add)$", b.path.replace(" for ", " ")) or \
+            re.match(r"^<(i32|i64) as (decode)::SignedInteger>::(from_i64|from_u32|wrapping_add)$", b.path)
+        if not m:
+            continue
+        if b.path.startswith("<"):
+            m2 = re.match(r"^<(i32|i64) as (decode)::SignedInteger>::(\w+)$", b.path)
+            mod, ty, fn = m2.group(2), m2.group(1), m2.group(3)
+        else:
+            m2 = re.match(r"^(stream)::<impl stream::private::SignedInteger for (i32|i64)>::(\w+)$", b.path)
+            if not m2:
+                continue
+            mod, ty, fn = m2.group(1), m2.group(2), m2.group(3)
+        if fn not in ("from_i64", "from_u32", "wrapping_add"):
+            continue
+        shape = (sorted(strip_generics(callee_name(t)).rsplit("::", 1)[-1] for _, t in b.calls()),
+                 sorted((s_["rv"]["r"], s_["rv"].get("op") or "", s_["rv"].get("ty") or "") for bl in b.blocks for s_ in bl["s"] if s_["rv"]["r"] in ("cast", "bin", "un")))
+        prim.setdefault((ty, fn), {})[mod] = (shape, loc_of(b))
+    npr = 0
+    for (ty, fn), d in sorted(prim.items()):
+        if set(d) == {"decode", "stream"}:
+            npr += 1
+            rep.check("C17.prim", "%s::%s is the same operation in decode.rs and stream.rs" % (ty, fn), d["decode"][0] == d["stream"][0], d["stream"][1], str(d["stream"][0]),
+                      "the structural decoder's %s::%s is %s, the streaming decoder's %s: the two decoders disagree on samples (e.g. saturating vs wrapping narrowing of a 64-bit prediction)" % (ty, fn, d["stream"][0], d["decode"][0]))
+    rep.floor("C17.prim", "integer primitives present in both decoders", npr, 6)
 
     # ---- C17.resid -----------------------------------------------------------------------------------------------------
     sig = {}
